@@ -145,6 +145,12 @@ def append_writable_only_appends(crate):
         st_.events.append(("create", "creator.create", [args[1].t, frame.body.name], None))
         return [(tup, None)]
     ex.summaries.insert(0, (re.compile(r"^<impl WritableDataCreator as .*WritableDataCreator<R>>::create$"), creator_create))
+
+    def creator_len(ex_, st_, frame, t, nf, args, dty):
+        n = z3.BitVec(fresh_name("creator_len"), 64)
+        st_.pc.append(z3.ULT(n, BV64(1 << 41)))      # realistic record sizes: no wrap-around in offset arithmetic
+        return [(Sym(n, "u64"), None)]
+    ex.summaries.insert(0, (re.compile(r"^<impl WritableDataCreator as .*WritableDataCreator<R>>::len$"), creator_len))
     outs = P.drive_async(ex, st, fn, [Ref(fc, (), False, "&io::unix::sync::File"), creator])
     res.paths = len(outs)
 
